@@ -262,5 +262,5 @@ def run(ctx):
             ctx.fail(v.signature, c, v.detail)
         n += 1
     ctx.exhaustive["axis_sweep"] = n
-    run_hypothesis(ctx, cases(3, 8) if q else cases(4, 14), oracle, 110 if q else 1100, "C08-trees")
+    run_hypothesis(ctx, cases(3, 8) if q else cases(4, 14), oracle, 110 if q else 600, "C08-trees")
     run_hypothesis(ctx, mt_cases(), oracle_merge_transforms, 15 if q else 150, "C08-merge_transforms")
